@@ -65,6 +65,18 @@ def generate(tier, seed):
                         lines = [["p", "p"] + r for r in pr[:3]] + [["g", "g"] + r for r in gr[:2]]
                         cases.append(case("eng", sp, adapter_X(adapter_M(lines), "p" + fault), "-", steps))
                         dist["partial_load"] += 1
+        # a load that FAILS while the role graph is not the image of the stored role rules (a rule added / removed with
+        # auto-build off, auto-build switched on again afterwards): the failed load must leave the graph - and with it the
+        # role queries and decisions - as it was, not rebuild it from the restored rules
+        dist["failed_load_stale_graph"] = dist.get("failed_load_stale_graph", 0)
+        for edit in (A("g", "g", gr[3]), R("g", "g", gr[0]), A("g", "g", gr[2])):
+            for ld in ("LD", "LF:%s:%s" % (enc_rule(["alice"]), enc_rule([]))):
+                for fault in "flh":
+                    for back_on in (True, False):
+                        steps = list(obs) + ["EB:0", edit] + (["EB:1"] if back_on else []) + obs + [ld] + obs
+                        lines = [["p", "p"] + r for r in pr[:3]] + [["g", "g"] + r for r in gr[:2]]
+                        cases.append(case("eng", sp, adapter_X(adapter_M(lines), "pp" + fault), "-", steps))
+                        dist["failed_load_stale_graph"] += 1
         # the string adapter rejects every incremental call
         for o in al[:20]:
             steps = list(obs) + [o] + obs
